@@ -14,14 +14,19 @@ pub fn vx_slice_to_vec(s: &[u8]) -> (r: Vec<u8>) ensures r@ == s@ { s.to_vec() }
 pub struct FromUtf8Error;
 impl VStr { #[verifier::external_body] pub fn from_utf8(v: Vec<u8>) -> (r: std::result::Result<VStr, FromUtf8Error>) ensures r is Ok ==> r->Ok_0@ == v@ && str_wf(r->Ok_0@) { unimplemented!() } }
 // the request parser / rewriter are the REAL functions (unit http_text, string model of shims/str_env.rs)
-pub enum HxEv { Tunnel { host: Seq<u8>, port: u16 }, Data { id: u32, bytes: Seq<u8> } }
+// Fin = end of data announced on the tunnel's stream; Released = the session handed back to the pool; SessionFailed = a write on the
+// session failed (which closes the session: Session::write_frame's contract, group `session`)
+pub enum HxEv { Tunnel { host: Seq<u8>, port: u16 }, Data { id: u32, bytes: Seq<u8> }, Fin, Released, SessionFailed }
 pub struct ProxyStream { pub id: u32 }
-impl ProxyStream { pub fn id(&self) -> (r: u32) ensures r == self.id { self.id } }
+impl ProxyStream {
+    pub fn id(&self) -> (r: u32) ensures r == self.id { self.id }
+    #[verifier::external_body] pub fn send_fin(&self, fx: &mut Ghost<Seq<HxEv>>) ensures final(fx)@ == old(fx)@.push(HxEv::Fin) { }
+}
 pub struct ProxySession { pub _p: () }
 impl ProxySession {
     #[verifier::external_body]
     pub fn write_data_frame(&self, id: u32, data: Bytes, fx: &mut Ghost<Seq<HxEv>>) -> (r: Result<()>)
-        ensures r is Ok ==> final(fx)@ == old(fx)@.push(HxEv::Data { id: id, bytes: data@ }), r is Err ==> final(fx)@ == old(fx)@
+        ensures r is Ok ==> final(fx)@ == old(fx)@.push(HxEv::Data { id: id, bytes: data@ }), r is Err ==> final(fx)@ == old(fx)@.push(HxEv::SessionFailed)
     { unimplemented!() }
 }
 pub struct Client { pub _p: () }
@@ -30,6 +35,9 @@ impl Client {
     pub fn create_proxy_stream(&self, destination: (VStr, u16), fx: &mut Ghost<Seq<HxEv>>) -> (r: Result<(Arc<ProxyStream>, Arc<ProxySession>)>)
         ensures r is Ok ==> final(fx)@ == old(fx)@.push(HxEv::Tunnel { host: destination.0@, port: destination.1 }), r is Err ==> final(fx)@ == old(fx)@
     { unimplemented!() }
+    // Client::release_session (group `pool`)
+    #[verifier::external_body]
+    pub fn release_session(&self, session: Arc<ProxySession>, fx: &mut Ghost<Seq<HxEv>>) ensures final(fx)@ == old(fx)@.push(HxEv::Released) { }
 }
 pub use std::sync::Arc;
 #[verifier::external_body]
